@@ -413,6 +413,60 @@ func runC04(c *h.Ctx) {
 		}
 		c.Sample("near-miss", map[string]string{"input": "$[1 \ue002 2]", "rule": "non-ascii-token"})
 	}
+	// near-miss by construction: @ outside a filter / last outside a subscript
+	// behind every kind of chain head (literal, variable, parenthesised
+	// expression, method result), at every kind of position
+	{
+		heads := []string{`"abc"`, `(1)`, `(1.5)`, `null`, `true`, `$v`, `$`, `$.a`, `(1 + 2)`, `(-$.a)`, `($.a == 1)`, `"x".type()`, `(2).abs()`, `$.a.size()`, `$.a[0]`, `$.a.**`, `(null)`, `$"v w"`}
+		bad := []string{`[@]`, `[@.i]`, `[0 to @]`, ` ? (@ == last)`, ` ? (last > 0)`, `[0] ? (@ > last)`, `.a[@]`, ` ? (@ == "abc" ? (last > 0))`, `[$.x ? (@ == 1)] ? (last == 1)`, `.a.b[@.c].d`, `[0, @]`, `.*[@]`, `.**[@.a]`, `.decimal(1)[@]`}
+		k := 0
+		for _, hd := range heads {
+			for _, b := range bad {
+				for _, wrap := range []string{"%s", "$.z + %s", "%s == 1", "exists(%s)", "-%s", "$ ? (@.q == 1).r[%s == 1]"} {
+					k++
+					if !c.Mine(k) {
+						continue
+					}
+					rule := "current-outside-filter"
+					if !strings.Contains(b, "@") || strings.Contains(b, "? (@") && strings.Contains(b, "last") {
+						rule = "last-outside-subscript"
+					}
+					if strings.Contains(wrap, "[%s") {
+						// inside a subscript last is legal, @ (outside a filter) is not
+						if !strings.Contains(b, "[@") && !strings.Contains(b, "to @") && !strings.Contains(b, ", @") {
+							continue
+						}
+						rule = "current-outside-filter"
+					}
+					check(fmt.Sprintf(wrap, hd+b), rule)
+				}
+			}
+		}
+	}
+	// near-miss by construction: a like_regex flag character outside i s m x q,
+	// among them the code points whose low byte is that of a valid flag
+	{
+		k := 0
+		for _, fl := range []rune("ismxq") {
+			for _, hi := range []rune{0x100, 0x200, 0x4e00, 0xff00, 0x1f300, 0x2000, 0x10ff00, 0xe000, 0x400} {
+				for _, form := range []string{`$ like_regex "a" flag "%s"`, `$ like_regex "a" flag "i%s"`, `$ ? (@ like_regex "a" flag "%sq")`, `$ like_regex "a" flag "\u%04x"`} {
+					k++
+					if !c.Mine(k) {
+						continue
+					}
+					x := hi + fl
+					if strings.Contains(form, `\u`) {
+						if x > 0xffff {
+							continue
+						}
+						check(fmt.Sprintf(form, x), "regex-flag")
+					} else {
+						check(fmt.Sprintf(form, string(x)), "regex-flag")
+					}
+				}
+			}
+		}
+	}
 	// near-miss by construction: NUL byte / invalid UTF-8 at every position of valid paths
 	rg := c.Rand("c04-corpus")
 	g := &gen.G{R: rg, C: gen.DefaultCfg()}
